@@ -65,7 +65,7 @@ PROPS = {
     "C19": dict(lanes=L(["rel", "dbg"])),
     "C20": dict(lanes=L(["rel", "dbg"])),
     "C21": dict(lanes=L(["rel", "dbg"])),
-    "C22": dict(lanes=L(["rel", "dbg"])),
+    "C22": dict(lanes=L(["rel", "dbg", "op"])),
     "C23": dict(lanes=L(["rel", "dbg"])),
     "C24": dict(lanes=L(["rel"]), runner="c24runner"),
     "C25": dict(lanes=L(["rel", "dbg", "asan", "miri"], ["rel", "dbg", "asan", "miri", "memcheck"])),
